@@ -34,7 +34,7 @@ def missing_for(r, c, forest_trees):
 
 def run(ctx):
     quick = ctx.quick()
-    opts = [{"tables": 1}, {"tables": 0}]
+    opts = [{"tables": 1, "chart": 1}, {"tables": 0, "chart": 1}]
     jobs = glrcases.gen_jobs(ctx.rng, quick, opts, nrand=150 if quick else 2500,
                              maxlen=6 if quick else 7, layout_variants=False)
     with mp.Pool(common.NPROC) as pool:
@@ -43,18 +43,40 @@ def run(ctx):
           "ref_trees_total": 0, "forest_trees_total": 0, "missing_cases": 0, "extra_cases": 0,
           "nullable_grammar_cases": 0, "baseline_same": 0, "baseline_differs": 0}
     mcases, meta = [], []
+    vcases, vmeta = [], []
+    wsl = [ord(ch) for ch in glrcases.WS]
     for ri, r in enumerate(results):
         st["grammars"] += 1
         if r["gerr"] or not r.get("plain"):
             continue
+        start = r["grammar"][0][1][0][1]
         for c in r["cases"]:
             st["inputs"] += 1
+            if c["status"] == "forest" and c.get("nodes") is not None and not c.get("cyclic"):
+                # the verified completeness validator (theorem C02_forest_complete) needs no enumeration:
+                # it is run on every acyclic forest, whatever the number of trees
+                w = c["input"]
+                ch = c.get("chart")
+                if ch is not None and len(c["nodes"]) <= 1200:
+                    vcases.append((15, [r["grammar"], c["nodes"], [ord(x) for x in w], c["rx"], wsl, start, 0, 1, ch]))
+                    vmeta.append((id(r), w))
             if c["status"] == "forest" and c.get("nodes") is not None and not c.get("cyclic") \
                     and c.get("solutions", 0) <= 4 * CAP:
                 st["forests"] += 1
                 mcases.append((7, [c["nodes"], 4 * CAP]))
                 meta.append((ri, r, c))
     outs = common.model_run(mcases)
+    vouts = common.model_run(vcases)
+    verdict = {k: tuple(o) for k, o in zip(vmeta, vouts)}
+    st["validator_runs"] = len(vcases)
+    st["validator_verdicts"] = {}
+    for o in vouts:
+        k = "forest_ok=%d chart_closed=%d forest_complete=%d" % tuple(o)
+        st["validator_verdicts"][k] = st["validator_verdicts"].get(k, 0) + 1
+    st["complete_by_theorem"] = sum(1 for o in vouts if tuple(o) == (1, 1, 1))
+    if any(o[1] != 1 for o in vouts):
+        ctx.violation("the chart certificate computed by the harness is not closed (chart_closed fails)",
+                      {"count": sum(1 for o in vouts if o[1] != 1)}, no_input=True, key="chart")
     nx, xok, xlog = common.coq_crosscheck("C02", mcases, outs, ctx.rng, sample=20 if quick else 60)
     if not xok:
         ctx.violation("extraction cross-check failed", {"log": xlog}, no_input=True)
@@ -73,6 +95,18 @@ def run(ctx):
             st["cyclic_or_too_many"] += 1
             continue
         st["compared"] += 1
+        v = verdict.get((id(r), c["input"]))
+        if v is not None and v[1] == 1:
+            if v == (1, 1, 1) and miss:
+                ctx.violation("forest_complete holds (theorem C02_forest_complete: every derivation is in the "
+                              "forest) but the reference finds a derivation that is absent (codec/extraction error)",
+                              {"grammar": r["gtext"], "options": r["opts"], "input": c["input"]},
+                              no_input=True, key="thm-vs-ref")
+            if v[0] == 1 and v[2] != 1 and not miss:
+                ctx.violation("forest_complete fails on a valid forest although the reference finds every "
+                              "derivation in it (validator or reference wrong)",
+                              {"grammar": r["gtext"], "options": r["opts"], "input": c["input"]},
+                              no_input=True, key="ref-vs-thm")
         st["ref_trees_total"] += len(trees)
         st["forest_trees_total"] += len(ftrees)
         if len(trees) > 1:
